@@ -718,8 +718,8 @@ def run(ctx):
     qres = check_parser(ctx, pars, HEX, mod=mod)
     for st, construct, where, why in qres:
         ctx.ob("C19.2", construct, st, where, why)
-    ctx.floor("return paths of u64_to_hex", len(pres), 1)
-    ctx.floor("return paths of hex_to_u64", len(qres), 1)
+    ctx.floor("return paths of u64_to_hex", len(pres), 1, soft=True)
+    ctx.floor("return paths of hex_to_u64", len(qres), 1, soft=True)
 
     allp = [r[0] for r in pres] + [r[0] for r in qres]
     if all(s == core.DISCHARGED for s in allp):
